@@ -131,6 +131,20 @@ class Obj(object):
         return (self.cls, tuple(sorted((k, freeze(v)) for k, v in self.fields.items())))
 
 
+class _Unbound(object):
+    def __repr__(self):
+        return '<unbound>'
+
+    def __deepcopy__(self, memo):
+        return self
+
+    def __copy__(self):
+        return self
+
+
+UNBOUND = _Unbound()
+
+
 class Native(object):
     """Rule-provided object: attribute reads and method calls are answered by
     Python code of the analyser (a model of e.g. the bit writer's position)."""
@@ -143,6 +157,76 @@ class Native(object):
 
     def truth(self):
         return True
+
+
+class Regex(Native):
+    """A compiled regular expression (re.compile on a concrete pattern): search / match / fullmatch / findall / finditer / sub / split
+    on a concrete subject are answered by the real `re`.  A rule-side subject (a scripted stream) takes part by offering
+    regex_subject() -> bytes/str and, optionally, regex_searched(interp, method, pos, match)."""
+
+    def __init__(self, pattern, flags=0):
+        import re as _re
+        self.rx = _re.compile(pattern, flags)
+
+    def __repr__(self):
+        return 'Regex(%r)' % (self.rx.pattern,)
+
+    def get_attr(self, name, interp, frame):
+        if name == 'pattern':
+            return self.rx.pattern
+        if name == 'flags':
+            return self.rx.flags
+        return NativeMethod(self, name)
+
+    def call_method(self, name, args, kwargs, interp, frame, node):
+        if not args:
+            raise Raise('TypeError', node, interp.where(node, frame))
+        subj = args[-1] if name in ('sub', 'subn') and len(args) >= 2 else args[0]
+        hook = None
+        if isinstance(subj, Native) and hasattr(subj, 'regex_subject'):
+            hook = subj
+            subj = subj.regex_subject()
+        rest = list(args[1:])
+        if not isinstance(subj, (str, bytes)) or kwargs or not all(isinstance(a, int) and not isinstance(a, bool) for a in rest if name not in ('sub', 'subn')):
+            raise Unsupported('regular expression %s.%s on a subject / arguments that are not concrete' % (self, name))
+        if isinstance(subj, str) != isinstance(self.rx.pattern, str):
+            raise Raise('TypeError', node, interp.where(node, frame))
+        if name in ('search', 'match', 'fullmatch'):
+            mo = getattr(self.rx, name)(subj, *rest)
+            if hook is not None and hasattr(hook, 'regex_searched'):
+                hook.regex_searched(interp, name, rest[0] if rest else 0, mo)
+            return None if mo is None else Match(mo)
+        if name == 'findall':
+            return [list(x) if False else x for x in self.rx.findall(subj, *rest)]
+        if name == 'finditer':
+            return GenList(Match(mo) for mo in self.rx.finditer(subj, *rest))
+        if name == 'split':
+            return self.rx.split(subj, *rest)
+        if name == 'sub' and len(args) >= 2 and isinstance(args[0], (str, bytes)):
+            return self.rx.sub(args[0], subj)
+        raise Unsupported('regular expression method %s' % name)
+
+
+class Match(Native):
+    def __init__(self, mo):
+        self.mo = mo
+
+    def __repr__(self):
+        return 'Match(%r)' % (self.mo.span(),)
+
+    def get_attr(self, name, interp, frame):
+        if name in ('pos', 'endpos', 'lastindex', 'lastgroup'):
+            return getattr(self.mo, name)
+        return NativeMethod(self, name)
+
+    def call_method(self, name, args, kwargs, interp, frame, node):
+        if name in ('start', 'end', 'span', 'group', 'groups', 'groupdict') and not kwargs and all(isinstance(a, (int, str)) for a in args):
+            try:
+                v = getattr(self.mo, name)(*args)
+            except (IndexError, TypeError) as exc:
+                raise Raise(type(exc).__name__, node, interp.where(node, frame))
+            return list(v) if False else v
+        raise Unsupported('match object method %s' % name)
 
 
 class Stub(Native):
@@ -664,7 +748,11 @@ class Interp(object):
     def ev_Name(self, e, frame):
         n = e.id
         if n in frame.locals:
-            return frame.locals[n]
+            v = frame.locals[n]
+            if v is UNBOUND:
+                # the name was bound by `except ... as n` (unbound again when the handler is left) or removed by `del n`
+                raise Raise('UnboundLocalError', e, self.where(e, frame))
+            return v
         clo = frame.locals.get('__closure__')
         while clo is not None:
             if n in clo:
@@ -1546,6 +1634,38 @@ class Interp(object):
             for x in items:
                 acc = self.apply('reduce-function', args[0], [acc, x], {}, node, frame)
             return acc
+        if qual == 're.escape' and len(args) == 1 and isinstance(args[0], (str, bytes)):
+            import re as _re
+            return _re.escape(args[0])
+        if qual == 're.compile' and args and isinstance(args[0], (str, bytes)):
+            flags = args[1] if len(args) > 1 else kwargs.get('flags', 0)
+            if isinstance(flags, int):
+                import re as _re
+                try:
+                    return Regex(args[0], flags)
+                except _re.error:
+                    raise Raise('re.error', node, self.where(node, frame))
+        if qual in ('re.search', 're.match', 're.fullmatch', 're.findall', 're.finditer', 're.split') and len(args) >= 2 and isinstance(args[0], (str, bytes)):
+            flags = args[2] if len(args) > 2 else kwargs.get('flags', 0)
+            if isinstance(flags, int):
+                return Regex(args[0], flags).call_method(qual[3:], [args[1]], {}, self, frame, node)
+        if qual == 're.sub' and len(args) == 3 and all(isinstance(a, (str, bytes)) for a in args):
+            return Regex(args[0]).call_method('sub', [args[1], args[2]], {}, self, frame, node)
+        if qual == 'six.indexbytes' and len(args) == 2 and isinstance(args[0], bytes) and isinstance(args[1], int):
+            try:
+                return args[0][args[1]]
+            except IndexError:
+                raise Raise('IndexError', node, self.where(node, frame))
+        if qual == 'six.byte2int' and len(args) == 1 and isinstance(args[0], bytes):
+            if not args[0]:
+                raise Raise('IndexError', node, self.where(node, frame))
+            return args[0][0]
+        if qual == 'six.int2byte' and len(args) == 1 and isinstance(args[0], int) and not isinstance(args[0], bool):
+            if not 0 <= args[0] < 256:
+                raise Raise('struct.error', node, self.where(node, frame))
+            return bytes([args[0]])
+        if qual == 'six.iterbytes' and len(args) == 1 and isinstance(args[0], bytes):
+            return GenList(args[0])
         if qual.startswith('six.moves.') and qual[10:] in ('range', 'zip', 'map', 'filter'):
             return self.builtin(qual[10:], args, kwargs, node, frame)
         return Top('call:' + qual)
@@ -2223,7 +2343,8 @@ class Interp(object):
                 if isinstance(b, Obj):
                     b.fields.pop(t.attr, None)
             elif isinstance(t, ast.Name):
-                frame.locals.pop(t.id, None)
+                if t.id in frame.locals:
+                    frame.locals[t.id] = UNBOUND
         return None
 
     def st_Raise(self, s, frame):
@@ -2268,6 +2389,9 @@ class Interp(object):
                         if r2.cls == '<re-raise>':
                             raise Raise(r.cls, r2.node, r2.where, r.value)
                         raise
+                    finally:
+                        if h.name:
+                            frame.locals[h.name] = UNBOUND      # Python 3: the name is deleted when the handler is left
             raise
         if c is None and s.orelse:
             return self.block(s.orelse, frame)
